@@ -22,7 +22,7 @@ PID = 'C11'
 TIERS = {
     #            4-site meshes, singles 1-in-Thin, lines, twins, pairs (free riders), 5-site meshes, Thin5, B3 seeded, CORONET
     'quick': dict(meshes4=300, thin=15, lines=12, twins=6, pairs=12, meshes5=0, thin5=0, b3=40, conus=14, glob=0),
-    'thorough': dict(meshes4=None, thin=24, lines=8, twins=3, pairs=6, meshes5=150, thin5=15, b3=300, conus=60, glob=25),
+    'thorough': dict(meshes4=None, thin=40, lines=6, twins=3, pairs=5, meshes5=150, thin5=15, b3=300, conus=60, glob=25),
 }
 
 
@@ -60,7 +60,7 @@ def run(chk):
     salt = chk.seed % 10007
     all4 = p['meshes4'] is None
     if all4:       # every mesh without parallel links, plus a seeded sample of those with one doubled pair of sites
-        ids4 = list(range(1, ru.BASE ** 6)) + [i for i in ru.stratified_meshes(4, 8000, rng) if i >= ru.BASE ** 6]
+        ids4 = list(range(1, ru.BASE ** 6)) + [i for i in ru.stratified_meshes(4, 4000, rng) if i >= ru.BASE ** 6]
     else:
         ids4 = [i for i in ru.stratified_meshes(4, p['meshes4'], rng) if i != 0]
     t0 = time.time()
@@ -84,9 +84,10 @@ def run(chk):
     timing = dict(b1_and_first_generation=round(time.time() - t0, 1))
     t1 = time.time()
     stats, traces, metas = ru.b2(chk, PID, jobs, keep=keep_for_c11)
-    for part in parts[1:]:
-        st, _, _ = ru.b2(chk, PID, ru.generate(chk, part, 'c11-gen4', **gen), keep=keep_for_c11)
-        stats = ru.merge_stats(stats, st)
+    acc = [stats]
+    ru.pipelined(parts[1:], lambda part: ru.generate(chk, part, 'c11-gen4', workers=ru.share(2), **gen),
+                 lambda jb: acc.append(ru.merge_stats(acc.pop(), ru.b2(chk, PID, jb, keep=keep_for_c11)[0])))
+    stats = acc[0]
     timing['b2_replay_and_judgement'] = round(time.time() - t1, 1)
     chk.cov['b2_4sites'] = stats
     if p['meshes5']:
